@@ -227,7 +227,9 @@ func (i *interpreter) raceCell(fr *frame, cell interface{}, write bool, pos toke
 func (i *interpreter) raceReport(fr *frame, pos1, kind1, pos2, kind2 string) {
 	a := []string{kind1 + " at " + pos1, kind2 + " at " + pos2}
 	sort.Strings(a)
-	label := fmt.Sprintf("C07-data-race: unsynchronised %s and %s", a[0], a[1])
+	// a race in the blob-search worker pool also means the answer of FindMissing (C10) and of the
+	// dependency check (C06) is not determined by the cache state: the label carries those tags too
+	label := fmt.Sprintf("C06-C07-C10-data-race: unsynchronised %s and %s", a[0], a[1])
 	if i.race.reported[label] {
 		return
 	}
